@@ -136,6 +136,30 @@ class Retry(DBase):
         node.remove_attributes_with_default_values(cls)
 
 
+class Shape11:
+    """A base class object SHARED by two class sets whose derived classes
+    have the same name."""
+    def __init__(self, name: str) -> None:
+        self.name = name
+
+
+def _mk_circle(version):
+    if version == 1:
+        class Circle(Shape11):
+            def __init__(self, name: str, radius: float) -> None:
+                super().__init__(name)
+                self.radius = radius
+    else:
+        class Circle(Shape11):
+            def __init__(self, name: str, radius: float, unit: str = 'm'
+                         ) -> None:
+                super().__init__(name)
+                self.radius, self.unit = radius, unit
+    return Circle
+
+
+CV1, CV2 = _mk_circle(1), _mk_circle(2)
+TEXT11 = 'name: c\nradius: 2.0\n'
 PD, PS = _mk_P()
 QD, QS = _mk_Q()
 DOCS = ['a: 1\ns:\n  x: 2\n', 'b: t\ns:\n  y: u\n', 'a: [1\n', 'zz: 1\n']
@@ -155,6 +179,9 @@ def _functions():
         'dumpsT': yatiml.dumps_function(Timeout),
         'dumpsR': yatiml.dumps_function(Retry),
         'loadR': yatiml.load_function(Retry),
+        'loadV1': yatiml.load_function(Shape11, CV1),
+        'loadV2': yatiml.load_function(Shape11, CV2),
+        'dumpsV1': yatiml.dumps_function(Shape11, CV1),
     }
 
 
@@ -190,6 +217,13 @@ def _battery(F):
     out.append(_outcome(lambda: F['dumpsP'](QD('t'))))
     out.append(_outcome(lambda: F['jsonQ'](PS(1))))
     out.append(_outcome(lambda: F['loadAny']('!Doc {a: 1}')))
+    # same-named classes under a shared base: each function builds ITS class
+    out.append(_outcome(lambda: F['loadV1'](TEXT11)))
+    out.append(_outcome(lambda: F['loadV2'](TEXT11)))
+    out.append(_outcome(lambda: F['dumpsV1'](CV2('c', 1.0))))
+    out.append(('own classes',
+                _outcome(lambda: type(F['loadV1'](TEXT11)) is CV1),
+                _outcome(lambda: type(F['loadV2'](TEXT11)) is CV2)))
     # PyYAML itself: what it did before yatiml was ever used
     out.append(('pyyaml', _pyyaml_probe() == PRISTINE_PROBE,
                 _pyyaml_tables() == PRISTINE_TABLES))
@@ -311,12 +345,18 @@ def _op(op):
         _outcome(lambda: F['dumpsT'](Timeout('t', 5)))
     elif op == 20:
         _outcome(lambda: F['dumpsR'](Retry('r')))
-    else:
+    elif op == 21:
         _outcome(lambda: yatiml.dump_json_function()({'a': 1},
                                                      io.StringIO()))
+    elif op == 22:
+        _outcome(lambda: F['loadV1'](TEXT11))
+    elif op == 23:
+        _outcome(lambda: F['loadV2'](TEXT11))
+    else:
+        _outcome(lambda: yatiml.load_function(Shape11, CV2)(TEXT11))
 
 
-NOPS = 22
+NOPS = 25
 
 
 def _history(n, o1, o2, o3, o4):
@@ -334,12 +374,14 @@ def _history(n, o1, o2, o3, o4):
                      before=str(before)[:400], after=str(after)[:400])
             return False
     got = _battery(LONG_LIVED)
-    pristine = (got[-1] == ('pyyaml', True, True)
+    own = ('own classes', ('value', ('bool', True)), ('value', ('bool', True)))
+    pristine = (got[-1] == ('pyyaml', True, True) and got[-2] == own
                 and _user_sig() == PRISTINE_USER
                 and _yatiml_base_sig() == PRISTINE_YATIML)
     if not pristine:
         if not SYMBOLIC:
             note(history=ops, pyyaml_as_before_first_use=got[-1],
+                 each_function_builds_its_own_classes=got[-2],
                  user_classes_unchanged=_user_sig() == PRISTINE_USER,
                  yatiml_base_classes_unchanged=(
                      _yatiml_base_sig() == PRISTINE_YATIML))
@@ -354,7 +396,7 @@ def _history(n, o1, o2, o3, o4):
 def histories(n: int, o1: int, o2: int, o3: int, o4: int) -> bool:
     """
     pre: 0 <= n <= 3
-    pre: 0 <= o1 < 22 and 0 <= o2 < 22 and 0 <= o3 < 22 and o4 == 0
+    pre: 0 <= o1 < 25 and 0 <= o2 < 25 and 0 <= o3 < 25 and o4 == 0
     post: __return__
     """
     s = slice_no(-1)
@@ -371,7 +413,7 @@ def histories(n: int, o1: int, o2: int, o3: int, o4: int) -> bool:
 
 def histories2(o1: int, o2: int) -> bool:
     """
-    pre: 0 <= o1 < 22 and 0 <= o2 < 22
+    pre: 0 <= o1 < 25 and 0 <= o2 < 25
     post: __return__
     """
     s = slice_no(-1)
@@ -382,7 +424,7 @@ def histories2(o1: int, o2: int) -> bool:
 
 def histories_reach(o1: int, o2: int) -> bool:
     """
-    pre: 0 <= o1 < 22 and 0 <= o2 < 22
+    pre: 0 <= o1 < 25 and 0 <= o2 < 25
     post: __return__
     """
     if o1 != 14:
@@ -392,19 +434,21 @@ def histories_reach(o1: int, o2: int) -> bool:
 
 
 CONDITIONS = [
-    {'fn': 'histories2', 'slices': list(range(22)), 'quick': 110,
+    {'fn': 'histories2', 'slices': list(range(25)), 'quick': 110,
      'thorough': None,
-     'bound': 'all 484 histories of 2 operations out of 22: snapshot of every '
+     'bound': 'all 625 histories of 2 operations out of 25: snapshot of every '
               'PyYAML/yatiml class-level registry, of the long-lived '
               'functions\' classes and of the user classes unchanged after '
               'each step; afterwards a battery of calls (P/Q/Any loaders, '
               'YAML and JSON dumpers, default-dropping classes sharing a base, '
-              'cross-class-set calls) equals the fresh-function baseline, and '
+              'cross-class-set calls, two functions whose derived classes have '
+              'the same name under a shared base class and must each build '
+              'their own) equals the fresh-function baseline, and '
               'yaml.safe_load/safe_dump probes and PyYAML\'s class-level '
               'tables equal what they were before yatiml was first used'},
-    {'fn': 'histories', 'slices': list(range(22)), 'quick': None,
+    {'fn': 'histories', 'slices': list(range(25)), 'quick': None,
      'thorough': 900,
-     'bound': 'all histories of <= 3 operations out of 22 (one slice per '
+     'bound': 'all histories of <= 3 operations out of 25 (one slice per '
               'first operation), same assertions'},
     {'fn': 'histories_reach', 'quick': 60, 'thorough': 60,
      'expect': 'REFUTED',
